@@ -142,3 +142,31 @@ def walk_no_nested_funcs(node):
             if isinstance(c, (ast.FunctionDef, ast.Lambda, ast.ClassDef)) and c is not node:
                 continue
             todo.append(c)
+
+
+def strip_not(test):
+    """(test without leading `not`s, polarity)"""
+    pol = True
+    while isinstance(test, ast.UnaryOp) and isinstance(test.op, ast.Not):
+        test = test.operand
+        pol = not pol
+    return test, pol
+
+
+def const_arms(root, values):
+    """{constant: body} for if-chains that compare something with string constants
+    (`if x == 'a': A elif x == 'b': B else: C`, also with inverted tests)."""
+    out = {}
+    for n in ast.walk(root):
+        if not isinstance(n, ast.If):
+            continue
+        t, pol = strip_not(n.test)
+        if isinstance(t, ast.Compare) and len(t.ops) == 1 and \
+                isinstance(t.comparators[0], ast.Constant) and t.comparators[0].value in values:
+            eq = isinstance(t.ops[0], ast.Eq)
+            ne = isinstance(t.ops[0], ast.NotEq)
+            if not (eq or ne):
+                continue
+            positive = pol if eq else not pol
+            out.setdefault(t.comparators[0].value, n.body if positive else n.orelse)
+    return out
